@@ -282,6 +282,9 @@ func (g *Gen) fill(k Kind, depth int, hidden bool) *Node {
 	}
 	if k == WDomain && g.T.Bool(1, 8) {
 		n.S[0] = Str{Safe: true} // WithDomain(err, NoDomain)
+		if g.T.Bool(1, 3) {
+			n.S[0].Neutral = true // WithDomain(err, Domain(""))
+		}
 	}
 	if k == WTelemetry {
 		switch g.T.Draw(8) {
